@@ -26,6 +26,7 @@ struct C05 : Check {
 			"EOF is never delivered on the terminal before the quit suffix (at EOF the editor's loops spin by construction)",
 			"typed text, patterns and file contents are valid UTF-8, as the statement restricts",
 			"signals are delivered at system-call boundaries, not between arbitrary instructions",
+			"a register that executes itself through the visual-mode @ (the endless vi macro) is not generated: it loops until interrupted by design",
 			"every catalogue child terminates; a child that never exits would hang any editor",
 			"CPU time is the hang oracle (20 s of CPU without finishing the run), so inputs whose honest cost is super-linear are kept moderate: linelimit <= 1000 (with lim=100000 every keystroke re-runs the bidi regex set over the whole 1000+ character line), no nested-star patterns, search counts <= 300"};
 	}
@@ -203,7 +204,9 @@ struct C05 : Check {
 		case 33: return "/" + std::string("\x1b");
 		case 34: return pre + "gg";
 		case 35: return "\"a" + count(r) + "yy:@a\n";
-		case 36: return ":rs a\n" + std::string(r.chance(1, 3) ? "@a" : r.chance(1, 2) ? "ra a" : "1d|u") + "\n.\n:@a\n";
+		// (register z is never executed with the vi-mode @: a register that re-executes itself there is the
+		// classic endless vi macro - a loop the user asked for, ended only by an interrupt, not a hang)
+		case 36: return ":rs z\n" + std::string(r.chance(1, 3) ? "@z" : r.chance(1, 2) ? "ra z" : "1d|u") + "\n.\n:@z\n";
 		case 37: return ":e F" + std::to_string(r.below(3)) + "\n";
 		case 38: return "i" + std::string((size_t) r.range(1, 4), '\t') + rtext(r, 300) + "\x1b";
 		default: return with_motion(r, pre, rg);
